@@ -22,6 +22,16 @@ fn kinds_at(cx: &Cx, tag: u32, stamp: u64) -> BTreeMap<Hk, i64> {
             }
         }
     }
+    // a handle that has been moved into a by-value operation which is still in flight (`halt()`, awaiting an address
+    // by value, `consume()`) is no longer the client's: whether the library keeps it until the operation completes or
+    // lets go of it as soon as it has done its part is not the property's business, so it does not count as existing
+    for o in cx.ix.ops.iter().filter(|o| o.tag == tag && o.b < stamp && o.e.map(|e| e >= stamp).unwrap_or(true)) {
+        if matches!(o.op, OpK::Halt | OpK::Await | OpK::Consume | OpK::ConsumeSync) && matches!(o.hk, Hk::Addr | Hk::Owning) {
+            if let Some(v) = m.get_mut(&o.hk) {
+                *v -= 1;
+            }
+        }
+    }
     m.retain(|_, v| *v > 0);
     m
 }
